@@ -1,5 +1,6 @@
 import Rbp.Proofs.Index
 import Rbp.Proofs.EndToEnd
+import Rbp.Generated.Consts
 /-!
 # C04 — only active-chain blocks are delivered; stale and header-only records never are
 Stated for the index as the repaired code builds it (records with data and no FAILED bit, keyed by hash; tip = highest
@@ -89,6 +90,24 @@ theorem active_chain_run (o : Opts) (key : Option Bytes) (kvs : List (Bytes × B
       ((List.range' o.start (E + 1 - o.start)).map (fun k => (⟨k, sz k, (blk k).toR⟩ : EBlock)))).2 :=
   Run.run_of_directory o key kvs files coin hcoin hkey hnd hdec A T hAok hmem hh hpass hlink hinj hroot hv hcomp E hE hstart sz blk
     hplaced hver hnp
+
+/-- the block-status constants in the SOURCE TEXT of `index.rs` (re-read on every run) are Bitcoin Core's -/
+theorem status_constants_published :
+    Generated.statusConsts = [("BLOCK_FAILED_MASK", 96), ("BLOCK_HAVE_DATA", 8), ("BLOCK_HAVE_UNDO", 16),
+      ("BLOCK_VALID_MASK", 7), ("BLOCK_VALID_SCRIPTS", 5)] := by decide
+
+/-- and they are the ones the model's status filter and tip test use -/
+theorem model_uses_source_constants (r : Rec) :
+    passes r = (decide (r.status &&& (Generated.statusConsts.lookup "BLOCK_HAVE_DATA").getD 0 > 0) &&
+                (r.status &&& (Generated.statusConsts.lookup "BLOCK_FAILED_MASK").getD 0 == 0)) ∧
+    validScripts r = decide (r.status &&& (Generated.statusConsts.lookup "BLOCK_VALID_MASK").getD 0 ≥
+                              (Generated.statusConsts.lookup "BLOCK_VALID_SCRIPTS").getD 0) := by
+  have h1 : (Generated.statusConsts.lookup "BLOCK_HAVE_DATA").getD 0 = 8 := by decide
+  have h2 : (Generated.statusConsts.lookup "BLOCK_FAILED_MASK").getD 0 = 96 := by decide
+  have h3 : (Generated.statusConsts.lookup "BLOCK_VALID_MASK").getD 0 = 7 := by decide
+  have h4 : (Generated.statusConsts.lookup "BLOCK_VALID_SCRIPTS").getD 0 = 5 := by decide
+  rw [h1, h2, h3, h4]
+  exact ⟨rfl, rfl⟩
 
 /-- records without block data or with a FAILED bit never enter the table: the status filter, stated outright -/
 theorem filter_spec (r : Rec) : passes r = true ↔ (r.status &&& 8 > 0 ∧ r.status &&& 96 = 0) := by
